@@ -710,6 +710,10 @@ def p_mp_createClass(p):
                                     obj.qualifiers['embeddedinstance']
                             except KeyError:
                                 continue
+                            if not isinstance(embedded_inst.value, str):
+                                # No class name specified (e.g. NULL): Not a
+                                # dependency that could be resolved.
+                                continue
                             if embedded_inst.value not in dep_classnames and \
                                     embedded_inst.value.lower() != ccname:
                                 dep_classnames.append(embedded_inst.value)
